@@ -123,8 +123,9 @@ def _nondet(bits, signed):
         nm = _name(st, a)
         lo, hi = (-(1 << (bits - 1)), (1 << (bits - 1)) - 1) if signed else (0, (1 << bits) - 1)
         if ex.concrete_inputs is not None:
-            v = int(ex.concrete_inputs.get(nm, 0))
-            return T.wrap(v, bits, signed)
+            v = T.wrap(int(ex.concrete_inputs.get(nm, 0)), bits, signed)
+            ex.concrete_inputs[nm] = v       # record the value actually used (native replay and shadow runs)
+            return v
         v = T.var(nm, lo, hi)
         st.inputs[nm] = ('int', v)
         return v
@@ -141,7 +142,9 @@ for _n, _b, _s in (('nondetU64', 64, False), ('nondetU32', 32, False), ('nondetU
 def nondet_bool(ex, st, fr, ins, a):
     nm = _name(st, a)
     if ex.concrete_inputs is not None:
-        return bool(ex.concrete_inputs.get(nm, False))
+        v = bool(int(ex.concrete_inputs.get(nm, 0)) & 1)
+        ex.concrete_inputs[nm] = v
+        return v
     v = T.bvar(nm)
     st.inputs[nm] = ('bool', v)
     return v
@@ -153,7 +156,9 @@ def nondet_z(ex, st, fr, ins, a):
     nm = _name(st, a)
     bits = ex.concrete(st, a[1])
     if ex.concrete_inputs is not None:
-        return int(ex.concrete_inputs.get(nm, 0))
+        v = int(ex.concrete_inputs.get(nm, 0)) % (1 << bits)
+        ex.concrete_inputs[nm] = v
+        return v
     v = T.var(nm, 0, (1 << bits) - 1)
     st.inputs[nm] = ('int', v)
     return v
@@ -614,3 +619,26 @@ def big_bytes(ex, st, fr, ins, a):
 
 
 INTRINSICS['strconv.FormatUint'] = _opaque('strconv.FormatUint')
+
+
+@intrinsic('errors.Is')
+def errors_is(ex, st, fr, ins, a):
+    """errors.Is for the comparisons made by the code under test (no wrapping chains are built there):
+    identity, or the error's own Is method"""
+    E = _ex()
+    err, target = a
+    if err is None or target is None:
+        return err is None and target is None
+    r = ex.veq(err, target)
+    if r is True:
+        return True
+    if isinstance(err, E.Iface) and err.tid != -1:
+        ts = ex.prog.types[err.tid]['s']
+        mm = ex.prog.methods.get(ts) or {}
+        if 'Is' in mm:
+            return ex.do_call(st, fr, ins, mm['Is'], [err.val, target])
+    return r
+
+
+for _n in ('reflect.ValueOf', 'reflect.TypeOf'):
+    INTRINSICS[_n] = _opaque(_n)
